@@ -92,10 +92,12 @@ def build_tree(fp_kind, ei, f_l, f_e, c_l, c_e, a_l, a_e, al_l, al_e, ds_l, ds_e
     c.set_member("x", x)
     c.set_member("meth", Function("meth", lineno=opt(f_l), endlineno=opt(f_e), parameters=Parameters(Parameter("self", kind=PK.positional_or_keyword))))
     c.set_member("al", Alias("al", "other.mod.thing", lineno=opt(al_l), endlineno=opt(al_e)))
-    # member names that collide with the keys the JSON form uses for dispatch, and with a name used in the class's own header
-    c.set_member("cls", Attribute("cls", lineno=opt(a_l), endlineno=opt(a_e)))
-    c.set_member("kind", Attribute("kind", lineno=opt(a_l), endlineno=opt(a_e)))
-    c.set_member("a", Attribute("a", lineno=opt(a_l), endlineno=opt(a_e)))
+    # a second class (never in the symbolic focus: only the native round trip sees it) whose member names collide with the keys the
+    # JSON form uses for dispatch (cls, kind) and with a name used in the class's own header (a: headers resolve in the ENCLOSING scope)
+    d = Class("D", lineno=30, endlineno=40, bases=[e()], decorators=[Decorator(e(), lineno=30, endlineno=30)])
+    mod.set_member("D", d)
+    for _n in ("cls", "kind", "a"):
+        d.set_member(_n, Attribute(_n, lineno=31, endlineno=31))
     mod.set_member("y", Attribute("y", lineno=opt(a_l), endlineno=opt(a_e), value=None, annotation=None))
     mod.set_member("imp", Alias("imp", "pkg.sub.name", lineno=opt(al_l), endlineno=opt(al_e)))
     # a RESOLVED chain of re-exports: re1 -> re2 -> f (serialisation must keep each alias's own target path)
@@ -121,8 +123,10 @@ def names_of(mod):
 
     def walk_keywords(x):
         # keyword arguments carry a reference to the called function (for cross-references): it must resolve as before too
+        if isinstance(x, ExprName):
+            return  # a name iterates over itself
         for el in x.iterate(flat=False):
-            if isinstance(el, Expr):
+            if isinstance(el, Expr) and el is not x:
                 if type(el).__name__ == "ExprKeyword":
                     out.append(("keyword:" + el.name, el.canonical_path))
                 walk_keywords(el)
@@ -251,11 +255,11 @@ def _make(group, free, expr_idxs, step, focus):
         return out
 
     @obligation(
-        pid="C08", name=f"roundtrip_{group.replace('+', '_')}", pre=_pre, shards=shards, timeout=tiered(280, 1500), path_timeout=60.0,
+        pid="C08", name=f"roundtrip_{group.replace('+', '_')}", pre=_pre, shards=shards, timeout=tiered(300, 1500), path_timeout=60.0,
         drives=[JSONEncoder.default, json_decoder, ENC._load_module, ENC._load_class, ENC._load_function, ENC._load_attribute, ENC._load_alias, ENC._load_docstring, ENC._load_expression,
                 ENC._load_parameter, ENC._attach_parent_to_exprs, Object.as_dict, Alias.as_dict, Module.as_dict, Class.as_dict, Function.as_dict, Attribute.as_dict, Docstring.as_dict,
                 SerializationMixin.as_json, SerializationMixin.from_json.__func__, EX._expr_as_dict],
-        bounds={"tree": "module{function f(p, *, q) with decorator+returns, class C(bases){attribute x, method, alias al, attributes named cls / kind / a}, attribute y, alias imp, resolved alias chain re1 -> re2 -> f}", "line numbers": "None, 0, 1 for every lineno/endlineno explored in this group",
+        bounds={"tree": "module{function f(p, *, q) with decorator+returns, class C(bases){attribute x, method, alias al}, class D(bases){attributes named cls / kind / a}, attribute y, alias imp, resolved alias chain re1 -> re2 -> f}", "line numbers": "None, 0, 1 for every lineno/endlineno explored in this group",
                 "expression shape": [MENU[i][0] for i in expr_idxs], "module filepath": "Path / list of Paths (namespace) / None (built-in)", "dump mode": "minimal and full", "free fields in this group": list(free), "objects serialised symbolically": list(focus)},
         value_symbolic=list(free), selectors=["expression shape (one per _node_map entry), module filepath kind, dump mode (driver-bound)"],
         stubs=STUBS, must_cover=["roundtrip"],
